@@ -10,6 +10,11 @@ every sample value, a fine grid reaching 10 h beyond the data, and +-1000 h outs
 Oracle: the exact (untruncated) Gaussian kernel sum with the estimator's bandwidth, in numpy (validated against mpmath
 at 50 digits on the small samples).  No random draws: `numpy.random.random` used by the sub-sampling branch of the
 cross-validation is replaced through the module global `inference.pdf.kde.random` by scripted sequences.
+
+history: ONE estimator and ONE evaluation-array object that the caller re-uses: every sequence block (modification, block)^d,
+block in {pdf, cdf, pdf+cdf, cdf+pdf}, modification applied IN PLACE to the caller's array (shift, scale, reverse, sort, refill,
+constant fill, free + re-allocate, none); after every call the result must equal bit-for-bit what a new estimator returns for
+a new copy of the current contents, lie within the conventions of the exact kernel sum, and the caller's array must be unchanged.
 """
 import itertools
 import math
@@ -421,6 +426,7 @@ def ev_history(case):
     fails, tags, slack = [], set(), {}
     nev = 0
     seen = set()
+    fresh_cache = {}
 
     def sl(name, v):
         if v == v and v > slack.get(name, -1.0):
@@ -464,10 +470,17 @@ def ev_history(case):
                         before = x.copy()
                         with lib(f"history-{meth}"):
                             got = np.asarray(k(x) if meth == "pdf" else k.cdf(x), dtype=float)
-                        kf = fresh()
-                        with lib(f"fresh-{meth}"):
-                            want = np.asarray(kf(before.copy()) if meth == "pdf" else kf.cdf(before.copy()), dtype=float)
-                        nev += 2
+                        # what a new estimator (nothing else ever asked of it) returns for a new array with these contents:
+                        # a function of the contents only, computed once per distinct contents, each time by its own new estimator
+                        ck_ = (a_exp, b_mult, meth, before.tobytes())
+                        if ck_ not in fresh_cache:
+                            kf = fresh()
+                            with lib(f"fresh-{meth}"):
+                                fw = np.asarray(kf(before.copy()) if meth == "pdf" else kf.cdf(before.copy()), dtype=float)
+                            fresh_cache[ck_] = (fw, R.exact_pdf(srt, h, before) if meth == "pdf" else R.exact_cdf(srt, h, before))
+                            nev += 1
+                        want, exact = fresh_cache[ck_]
+                        nev += 1
                         if not np.array_equal(x, before):
                             key = f"history/{bwc}/caller-array-changed-by-{meth}"
                             if key not in seen:
@@ -482,10 +495,7 @@ def ev_history(case):
                                 fails.append(fail(key, f"{scls} {mapname}: history {hist}: {meth} of the re-used array differs from a fresh estimator on a copy of its contents (max |diff| {d!r}, h={h!r})", h=h, **detail))
                         # and against the exact kernel sum (the property's own terms), on the current contents
                         if got.shape == want.shape:
-                            if meth == "pdf":
-                                dv = float(np.abs(got - R.exact_pdf(srt, h, before)).max()) * h / TOL_PDF_H
-                            else:
-                                dv = float(np.abs(got - R.exact_cdf(srt, h, before)).max()) / TOL_CDF
+                            dv = float(np.abs(got - exact).max()) * (h / TOL_PDF_H if meth == "pdf" else 1.0 / TOL_CDF)
                             sl(f"history-{meth}-vs-exact/{bwc}", dv)
                             if not dv <= 1.0:
                                 key = f"history/{bwc}/{meth}-after-{last_mod}-not-faithful"
